@@ -20,6 +20,7 @@ package main
 import (
 	"bytes"
 	"fmt"
+	"io"
 	"regexp"
 	"sort"
 	"strings"
@@ -143,6 +144,9 @@ type built struct {
 	sig       string
 	holes     []hook6.Hole
 	sub       bool
+	// structOnly: compare the token structure only (macro-matrix stream: a content of one format
+	// shown in a context of another is escaped twice, so a decoded slot is not the raw value)
+	structOnly bool
 }
 
 func runTemplate(t *scriggo.Template, vars map[string]any) (out string, err error) {
@@ -156,12 +160,15 @@ func runTemplate(t *scriggo.Template, vars map[string]any) (out string, err erro
 	return b.String(), err
 }
 
+// mdConverter: goldmark, the converter an embedder would plug in (Markdown shown in HTML)
+func mdConverter(src []byte, out io.Writer) error { return md.Convert(src, out) }
+
 func build(d doc) (*built, error) {
 	files := scriggo.Files{d.fileName(): []byte(d.src)}
 	for n, s := range d.extra {
 		files[n] = []byte(s)
 	}
-	t, err := scriggo.BuildTemplate(files, d.fileName(), &scriggo.BuildOptions{Globals: globals})
+	t, err := scriggo.BuildTemplate(files, d.fileName(), &scriggo.BuildOptions{Globals: globals, MarkdownConverter: mdConverter})
 	if err != nil {
 		return nil, err
 	}
@@ -250,6 +257,9 @@ func (b *built) check(val vec) (clause, detail, out string) {
 	toks := structure(b.d.format, out, b.sub)
 	if d := b.structDiff(toks); d != "" {
 		return "token-structure-differs", d, out
+	}
+	if b.structOnly {
+		return "", "", out
 	}
 	// same structure: the decoded slot content must be the benign content with the marker replaced
 	attrName := ""
@@ -699,7 +709,7 @@ func knownCases() []knownCase {
 
 func run(c *hx.Ctx) error {
 	res := c.Res
-	res.Rule = "a case is one (template document, value assignment) pair rendered by the real engine and compared, token structure and decoded slot content, with the rendering of the same document for the benign markers; documents come from a grammar over HTML (text, RCDATA, raw text, comments, quoted/unquoted/URL/srcset/event/style attributes with one or SEVERAL holes — adjacent, separated by a short literal, or separated only by statements that write nothing —, script and style elements with type variants) and standalone JS, CSS, JSON and Markdown files with holes of 15 variable types at every slot; a value assignment gives the variables of one document three independent values (slots): the same value everywhere, or a state-establishing value (`?`, `#`, `,`, trailing `&`, open character reference, truncated UTF-8, pending escape) in one slot and breakers in the others, each drawn from a 230-entry context-breaking dictionary, fragment concatenations, random Unicode and random bytes. Non-trivial = some value contains a byte outside [A-Za-z0-9]; distinct by (document, assignment)"
+	res.Rule = "a case is one (template document, value assignment) pair rendered by the real engine and compared, token structure and decoded slot content, with the rendering of the same document for the benign markers; documents come from a grammar over HTML (text, RCDATA, raw text, comments, quoted/unquoted/URL/srcset/event/style attributes with one or SEVERAL holes — adjacent, separated by a short literal, or separated only by statements that write nothing —, script and style elements with type variants) and standalone JS, CSS, JSON and Markdown files with holes of 15 variable types at every slot; a value assignment gives the variables of one document three independent values (slots): the same value everywhere, or a state-establishing value (`?`, `#`, `,`, trailing `&`, open character reference, truncated UTF-8, pending escape) in one slot and breakers in the others, each drawn from a 230-entry context-breaking dictionary, fragment concatenations, random Unicode and random bytes. Non-trivial = some value contains a byte outside [A-Za-z0-9]; distinct by (document, assignment). MACRO-MATRIX stream (macro.go), enumerated completely on every run: 16 contents of the six result formats (string, html, css, js, json, markdown) x 9 constructs standing before the content in a macro body (none, raw, raw with marker, if, if-else, for, switch, comment, raw inside if) x {macro declared locally with an explicit result type, macro imported from a file of that format, file rendered with render} x 25 showing contexts of html / css / js / json / md / txt pages; a case is one (matrix point, value) with the page built twice, the content shown as `{{ X }}` (the emitter's fast path where it takes it) and as `{% var r = X %}{{ r }}` (renderer.Show): both forms must print the same bytes and both must have the token structure of the rendering with the benign marker; values per point: the benign marker, two context-breaking strings for each format that meets at the point (page, content, context) and dictionary draws; values of Markdown-involved points are valid UTF-8 without U+FFFD, TAB, CR, LF, FF, VT; render x URL contexts excluded (C16/render-inherits-inurl)"
 
 	if err := specValidation(c); err != nil {
 		return err
@@ -832,7 +842,17 @@ func run(c *hx.Ctx) error {
 	}
 
 	// 4. correspondence of the escapers on the values used
-	return correspondence(c, used)
+	if err := correspondence(c, used); err != nil {
+		return err
+	}
+
+	// 5. the typed-macro-result x showing-context matrix (macro.go); last, so that the draws of the
+	// streams above do not depend on it
+	if err := specFastPath(c); err != nil {
+		return err
+	}
+	macroMatrix(c)
+	return nil
 }
 
 // ---------------------------------------------------------------- correspondence and spec validation
